@@ -450,12 +450,17 @@ contract(
 contract(
     f"{M}:_tokenize",
     requires=[],
-    ensures=[],
+    # every token handed on carries positions inside the text (index len(text) = end of text)
+    ensures=["forall(0, len(result), lambda i: pos_ok(result[i].start, len(text) + 1))"],
     raises={"TokenizeError": ["err_ok(exc, len(text) + 1)"]},
     modifies=["state.has_comments"],
     loops={
         "while True": dict(
-            invariant=["sb_inv(stream)", r"stream._buffer == text + '\0'"],
+            invariant=[
+                "sb_inv(stream)",
+                r"stream._buffer == text + '\0'",
+                "forall(0, len(_yielded), lambda i: pos_ok(_yielded[i].start, len(text) + 1))",
+            ],
             decreases="rest(stream)",
         )
     },
